@@ -18,8 +18,9 @@ def sbytes(s):
 
 
 # ------------------------------------------------------------------ values
-KEY_POOL = [b"a", b"b", b"ab", b"", b"a\x00b", b"a\x00c", b"key", b"\xc3\xa9", b"a b", b"*"]
+KEY_POOL = [b"a", b"b", b"ab", b"", b"a\x00b", b"a\x00c", b"key", b"\xc3\xa9", b"a b", b"*", b"k\\", b'q"']
 STR_POOL = [b"", b"a", b"hello", b"a\x00b", b"\xc3\xa9\xe2\x82\xac", b"\xf0\x9f\x98\x80", b'q"q', b"back\\slash", b"/",
+            b"C:\\", b"\\", b"\\\\", b'\\"', b'"\\', b"end\\\\\\",
             b"tab\there", b"nl\nx", b"\x01\x1f", b"\x7f", b"'", b"42"]
 INT_POOL = ["0", "1", "-1", "42", "2147483647", "2147483648", "-2147483648", "-2147483649", "4294967295",
             "4294967296", "9223372036854775807", "9223372036854775808", "-9223372036854775808",
